@@ -99,6 +99,10 @@ def variant(kind, rng, mode, axi):
                 p.circprops = [dict(name="c0", V=25.0, q=0.0, type=1)]
             if not any(s["cond"] == 0 for s in p.segs):
                 p.add_node(1.0, 1.0, cond=0)
+            if kind == "h":
+                # a conductivity that depends on the temperature (the solver then makes several passes over its assembly): the temperature
+                # field of a boundary-driven problem is still the same in every unit, the conductor heat flows scale with the length
+                p.blockprops[p.labels[0]["block"]]["TK"] = [(0.0, 1.0), (10.0, 1.5), (25.0, 3.0)]
         else:
             p.blockprops[p.labels[0]["block"]]["qv"] = 1e-6 if kind == "e" else 100.0
     return p
@@ -138,7 +142,7 @@ def main(argv):
     stats = dict(variants=0, unit_runs=0, quantities_compared=0, worst_relative_deviation=0.0, by_physics={})
     combos = [("e", "bc", False), ("e", "src", True), ("h", "bc", True), ("h", "src", False), ("m", "bc", False), ("m", "src", False),
               ("m", "cur", False), ("e", "bc", True), ("m", "bc", "harmonic"), ("m", "mut", True), ("m", "mut", False), ("m", "src", True),
-              ("m", "mag", False), ("m", "mag", True), ("m", "mag", False)]
+              ("m", "mag", False), ("m", "mag", True), ("m", "mag", False), ("h", "bc", False)]
     if ck.tier == "thorough":
         combos = combos * 4
     try:
